@@ -81,10 +81,27 @@ class TracepointConfigService:
         """
         old_hash = self._current_hash
         old_config = self._tracepoint_config
+        self.__continue_limits(old_config, new_config)
         self._last_update = ts
         self._current_hash = new_hash
         self._tracepoint_config = new_config
         self.__trigger_update(old_hash, old_config)
+
+    @staticmethod
+    def __continue_limits(old_config: List['Trigger'], new_config: List['Trigger']):
+        # a tracepoint that is in the old and in the new config stays installed: its limits continue
+        try:
+            previous = {}
+            for trigger in old_config:
+                for action in trigger.actions:
+                    previous[(action.id, action.action_type)] = action
+            for trigger in new_config:
+                for action in trigger.actions:
+                    old_action = previous.get((action.id, action.action_type))
+                    if old_action is not None:
+                        action.continues(old_action)
+        except Exception:
+            logging.exception("Cannot carry the tracepoint limits over to the new config")
 
     def __trigger_update(self, old_hash, old_config):
         ts = self._last_update
